@@ -349,8 +349,14 @@ def truncTime (is : List Item) (t : Time) : Time :=
     let ns := cutFrac t.frac (fracDigits is)
     ⟨t.secs, if t.frac ≥ 1000000000 then 1000000000 + ns else ns⟩
 
+/-- the date of a wall clock lies in the range of `NaiveDate` (a `DateTime` near the ends of the range can
+have a wall clock one day outside it: it is printed, with year ±262143/4, but cannot be read) -/
+def wallInRange (d : Date) : Bool :=
+  decide (Chrono.Extracted.MIN_YEAR ≤ d.year) && decide (d.year ≤ Chrono.Extracted.MAX_YEAR)
+
 /-- the value cut to the precision the format prints; `none` where the cut value does not exist
-(a local reading that leaves the supported range at the rounded offset) -/
+(a wall clock outside the range of `NaiveDate`, or a local reading that leaves the supported range at the
+rounded offset) -/
 def truncate_to_precision (is : List Item) (v : Value) : Option Value :=
   let c := carries is
   let fields := fullDate c && fullTime c
@@ -365,9 +371,13 @@ def truncate_to_precision (is : List Item) (v : Value) : Option Value :=
     if fields then
       match z.overflowing_naive_local with
       | .ok l =>
-        (match Zoned.from_local_datetime off' ⟨l.date, truncTime is l.time⟩ with
-         | .ok (some z') => some (.zoned z')
-         | _ => none)
+        -- the printed wall clock must be a `NaiveDateTime` (the reader builds one from the fields) …
+        if wallInRange l.date then
+          -- … and, put back at the printed offset, an instant of the supported range
+          (match Zoned.from_local_datetime off' ⟨l.date, truncTime is l.time⟩ with
+           | .ok (some z') => some (.zoned z')
+           | _ => none)
+        else none
       | .panic => none
     else
       -- timestamp only: the instant at whole seconds, at the printed offset (UTC without an offset
